@@ -24,7 +24,7 @@ theorem limited_or_batch_cannot_create (env : Env) (par : Parent) (ep : Endpoint
 theorem root_only_from_root (env : Env) (par : Parent) (ep : Endpoint) (rq : Req) (t : Created)
     (h : create env par ep rq = .ok t) : nRoot ∈ t.policies → nRoot ∈ par.policies := by
   intro hr
-  obtain ⟨_, _, _, batch, X, orphan, m, ttl, _, _, _, _, hX, hroot, _, _, _, _, _, _, ht⟩ := create_inv h
+  obtain ⟨_, _, _, batch, X, orphan, m, ttl, _, _, _, _, hX, _, hroot, _, _, _, _, _, _, ht⟩ := create_inv h
   subst ht
   apply hroot
   obtain ⟨y, hy, hn⟩ := mem_sanitize_false hr
@@ -37,7 +37,7 @@ theorem root_only_from_root (env : Env) (par : Parent) (ep : Endpoint) (rq : Req
 theorem created_policies_assignable (env : Env) (par : Parent) (ep : Endpoint) (rq : Req) (t : Created)
     (h : create env par ep rq = .ok t) : ∀ p ∈ nonAssignable, p ∉ t.policies := by
   intro p hp hpt
-  obtain ⟨_, _, _, batch, X, orphan, m, ttl, _, _, _, _, hX, _, _, _, _, _, _, _, ht⟩ := create_inv h
+  obtain ⟨_, _, _, batch, X, orphan, m, ttl, _, _, _, _, hX, _, _, _, _, _, _, _, _, ht⟩ := create_inv h
   subst ht
   have hNA := resolvePolicies_ok hX
   exact hNA.2 p hp (sanitize_false_subset hNA.1 hpt)
@@ -56,7 +56,7 @@ theorem create_no_escalation (env : Env) (par : Parent) (ep : Endpoint) (rq : Re
     t.customId = false ∧ t.periodStored = 0 ∧
     (endpointRole ep = none →
         (t.orphan = true ↔ ep = .createOrphan) ∧ rq.noParent = false ∧ t.period = 0) := by
-  obtain ⟨_, _, _, batch, X, orphan, m, ttl, _, _, hid, _, hX, _, _, ho, hm, _, _, _, ht⟩ := create_inv h
+  obtain ⟨_, _, _, batch, X, orphan, m, ttl, _, _, hid, _, hX, _, _, _, ho, hm, _, _, _, ht⟩ := create_inv h
   subst ht
   rw [resolvePolicies_noLists hl] at hX
   obtain ⟨hN, _, hsub⟩ := resolveNoLists_nosudo hs hns hX
@@ -98,7 +98,7 @@ theorem create_no_escalation_stored (env : Env) (par : Parent) (ep : Endpoint) (
 /-- every token `create` produces stores a sanitised policy list (the hypothesis of `create_no_escalation_stored`) -/
 theorem create_stores_sanitized (env : Env) (par : Parent) (ep : Endpoint) (rq : Req) (t : Created)
     (h : create env par ep rq = .ok t) : ∃ Q, t.policies = sanitize Q false := by
-  obtain ⟨_, _, _, batch, X, orphan, m, ttl, _, _, _, _, _, _, _, _, _, _, _, _, ht⟩ := create_inv h
+  obtain ⟨_, _, _, batch, X, orphan, m, ttl, _, _, _, _, _, _, _, _, _, _, _, _, _, ht⟩ := create_inv h
   exact ⟨X, by rw [ht]⟩
 
 /-- **A role changes the outcome only as configured.** Created through a role that configures at least one policy
@@ -120,7 +120,7 @@ theorem role_bounds (env : Env) (par : Parent) (name : Name) (r : Role) (rq : Re
       (0 < r.period → 0 < t.period ∧ t.period ≤ r.period) ∧
       (env.sudo = false → r.period ≤ 0 → t.period ≤ 0) ∧
       (0 < r.emax → 0 < t.emax ∧ t.emax ≤ r.emax)) := by
-  obtain ⟨_, _, _, batch, X, orphan, m, ttl, hb, _, _, _, hX, _, _, ho, hm, _, _, _, ht⟩ := create_inv h
+  obtain ⟨_, _, _, batch, X, orphan, m, ttl, hb, _, _, _, hX, _, _, _, ho, hm, _, _, _, ht⟩ := create_inv h
   subst ht
   have hrole : endpointRole (.withRole name (some r)) = some r := rfl
   rw [hrole] at hX hm hb
@@ -246,7 +246,7 @@ theorem lifetime_bounded_partial (env : Env) (par : Parent) (ep : Endpoint) (rq 
     (t.ttl = 0 ∧ nRoot ∈ t.policies ∧ nRoot ∈ par.policies ∧ par.ttl = 0) ∨
     (0 < t.ttl ∧ (0 < t.emax → t.ttl ≤ t.emax) ∧ t.ttl ≤ env.sysMax) ∨
     (nRoot ∈ t.policies ∧ nRoot ∈ par.policies ∧ 0 < t.emax ∧ t.ttl = t.emax ∧ t.period ≤ 0) := by
-  obtain ⟨_, _, _, batch, X, orphan, m, ttl, _, _, _, _, hX, hroot, _, _, hm, httl, hpt, _, ht⟩ := create_inv h
+  obtain ⟨_, _, _, batch, X, orphan, m, ttl, _, _, _, _, hX, _, hroot, _, _, hm, httl, hpt, _, ht⟩ := create_inv h
   have hrt := root_only_from_root env par ep rq t h
   subst ht
   obtain ⟨hm0, _⟩ := parseAndMerge_ok hm
@@ -278,49 +278,49 @@ theorem lifetime_bounded_cex : ¬ lifetime_bounded_full := by
   simp only at h
   omega
 
-/-- The intent of the guard "root tokens may not be created from a parent namespace": a token created from another
-(parent) namespace never holds `root`. -/
-def crossns_never_root_full : Prop :=
-  ∀ (env : Env) (par : Parent) (ep : Endpoint) (rq : Req) (t : Created),
-    env.crossNS = true → create env par ep rq = .ok t → nRoot ∉ t.policies
-
-/-- What the guard does ensure, for all inputs: a cross-namespace creation needs sudo, and when the created token
-holds `root` then the parent holds `root` and the (trimmed) requested list does not contain the literal `root`. -/
-theorem crossns_never_root_partial (env : Env) (par : Parent) (ep : Endpoint) (rq : Req) (t : Created)
+/-- **Root tokens are never created from a parent namespace** (after the repair of F33: the guard tests the resolved,
+sanitised policy list — the one stored on the token — instead of the raw request). For every parent, capability set,
+endpoint, role and spelling of the request: a token created in a namespace other than its parent's never holds
+`root`, and the creation needs sudo. -/
+theorem crossns_never_root (env : Env) (par : Parent) (ep : Endpoint) (rq : Req) (t : Created)
     (hx : env.crossNS = true) (h : create env par ep rq = .ok t) :
-    env.sudo = true ∧ (nRoot ∈ t.policies → nRoot ∈ par.policies ∧ nRoot ∉ trimStrings rq.policies) := by
-  have hroot := root_only_from_root env par ep rq t h
-  obtain ⟨_, _, _, hmid⟩ := create_ok h
-  unfold createMid at hmid
-  simp only [hx, Bool.true_and] at hmid
-  split at hmid
-  · contradiction
-  · rename_i hs
-    split at hmid
-    · contradiction
-    · rename_i hc
-      refine ⟨by simpa using hs, fun hr => ⟨hroot hr, ?_⟩⟩
-      intro hm
-      apply hc
-      simpa [parseFields, List.contains_iff_mem] using hm
+    env.sudo = true ∧ nRoot ∉ t.policies := by
+  obtain ⟨_, _, _, batch, X, orphan, m, ttl, _, _, _, hns, hX, hcross, _, _, _, _, _, _, _, ht⟩ := create_inv h
+  subst ht
+  refine ⟨hns hx, fun hr => ?_⟩
+  have hN : Normal X := (resolvePolicies_ok hX).1
+  have : env.crossNS = false := hcross (sanitize_false_subset hN hr)
+  rw [hx] at this
+  cases this
 
-/-- The intent is NOT met: a parent-namespace root token asking for `ROOT` gets a root token in the child namespace
-(the raw list is compared before lower-casing). Reproduced on the real code (known finding
-`root-token-created-from-parent-namespace`). -/
-theorem crossns_never_root_cex : ¬ crossns_never_root_full := by
-  intro hfull
-  have h := hfull
-    { allowed := true, sudo := true, nsChild := true, crossNS := true, sysDefault := 1800, sysMax := 3600 }
-    { policies := [nRoot], ttl := 0, numUses := 0, batch := false }
-    .create
-    { policies := [['R', 'O', 'O', 'T']], noParent := false, noDefault := false, renewable := true, period := .absent,
-      emax := .absent, ttl := .absent, numUses := 0, id := .none, type := .empty, alias := none }
-    { policies := [nRoot], orphan := false, batch := false, ttl := 0, period := 0, emax := 0,
-      periodStored := 0, emaxStored := 0, numUses := 0, renewable := false, customId := false,
-      path := cCreate, role := [] }
-    rfl (by decide)
-  exact h (by decide)
+/-- non-vacuity, and the shapes that used to slip through: from a parent namespace, `ROOT` is now refused … -/
+example :
+    create { allowed := true, sudo := true, nsChild := true, crossNS := true, sysDefault := 1800, sysMax := 3600 }
+      { policies := [nRoot], ttl := 0, numUses := 0, batch := false } .create
+      { policies := [['R', 'O', 'O', 'T']], noParent := false, noDefault := false, renewable := true, period := .absent,
+        emax := .absent, ttl := .absent, numUses := 0, id := .none, type := .empty, alias := none }
+    = .err "ns-root" := by decide
 
+/-- … so is an empty request through a role without allow-list (which inherits the parent's [root]) … -/
+example :
+    create { allowed := true, sudo := true, nsChild := true, crossNS := true, sysDefault := 1800, sysMax := 3600 }
+      { policies := [nRoot], ttl := 0, numUses := 0, batch := false }
+      (.withRole ['r'] (some { allowed := [], disallowed := [['x']], allowedGlob := [], disallowedGlob := [],
+                               orphan := true, renewable := true, noDefault := false, period := 0, emax := 0,
+                               numUses := 0, tokType := .defaultService, pathSuffix := [], aliases := [] }))
+      { policies := [], noParent := false, noDefault := false, renewable := true, period := .absent,
+        emax := .absent, ttl := .val 600, numUses := 0, id := .none, type := .empty, alias := none }
+    = .err "ns-root" := by decide
+
+/-- … while an ordinary cross-namespace creation by a sudo caller still succeeds -/
+example :
+    create { allowed := true, sudo := true, nsChild := true, crossNS := true, sysDefault := 1800, sysMax := 3600 }
+      { policies := [nRoot], ttl := 0, numUses := 0, batch := false } .create
+      { policies := [['a']], noParent := false, noDefault := false, renewable := true, period := .absent,
+        emax := .absent, ttl := .val 600, numUses := 0, id := .none, type := .empty, alias := none }
+    = .ok { policies := [['a'], nDefault], orphan := false, batch := false, ttl := 600, period := 0, emax := 0,
+            periodStored := 0, emaxStored := 0, numUses := 0, renewable := true, customId := false,
+            path := cCreate, role := [] } := by decide
 
 /-! ### non-vacuity: the hypotheses are met by concrete, non-trivial creations -/
 
